@@ -611,7 +611,15 @@ def generate_record(seed, tier, opts):
                 else:
                     entry, a = gen_call(rng, pool, entries)
                 last_call = (entry, a)
-                steps.append({"op": "call", "entry": entry, "a": a, "stream": gen_stream(rng, pool, allow_none=True)})
+                stream = gen_stream(rng, pool, allow_none=True)
+                if entry == "gen_dataset" and rng.random() < 0.4:
+                    # one stream per distribution, of different kinds
+                    items = []
+                    for _ in a["vs"]:
+                        it = gen_stream(rng, pool, allow_none=True)
+                        items.append(it)
+                    stream = {"k": "mixed", "items": items}
+                steps.append({"op": "call", "entry": entry, "a": a, "stream": stream})
     return {"engine": "rngsim", "seed": seed, "tier": tier, "opts": {k: v for k, v in opts.items() if k != "want_record"},
             "pool": to_jsonable(pool), "steps": steps}
 
@@ -679,8 +687,16 @@ class Run:
             pyrandom.setstate(py_s)
 
     # --- stream materialisation --------------------------------------------------------------
+    def _mixed(self, spec, gens):
+        out = []
+        for it in spec["items"]:
+            out.append(it["s"] if it["k"] == "int" else (gens[it["i"]] if it["k"] == "gen" else None))
+        return out
+
     def live_stream(self, entry, spec, a):
         k = spec["k"]
+        if k == "mixed":
+            return self._mixed(spec, self.gens)
         if k == "int":
             if entry == "gen_dataset":
                 return [spec["s"] + j for j in range(len(a["vs"]))]
@@ -693,6 +709,8 @@ class Run:
         raise ValueError(k)
 
     def shadow_stream(self, entry, spec, a):
+        if spec["k"] == "mixed":
+            return self._mixed(spec, self.shadows)
         if spec["k"] == "gen":
             g = self.shadows[spec["i"]]
             return [g] * len(a["vs"]) if entry == "gen_dataset" else g
@@ -734,15 +752,17 @@ class Run:
                             dict(sig, where=where, route="data" if entry in DATA_ENTRIES else "multinomial"))
         # ---- isolation of the random state (R1/R2/R3)
         k = spec["k"] if crafted is None else "crafted"
+        mixed_gens = {it["i"] for it in spec.get("items", []) if it["k"] == "gen"} if k == "mixed" else set()
+        mixed_none = k == "mixed" and any(it["k"] == "none" for it in spec["items"])
         if py1_d != py0_d:
             raise Violation("R_isolation", f"{entry} changed the state of python's `random`", {"step": idx, "entry": entry}, dict(sig, state="py_random"))
-        if k != "none" and np1_d != np0_d:
+        if k != "none" and not mixed_none and np1_d != np0_d:
             raise Violation("R_isolation", f"{entry} with stream kind {k} changed the global numpy random state", {"step": idx, "entry": entry, "args": a, "stream": spec}, dict(sig, state="np_global"))
         for j, (d0, d1) in enumerate(zip(gens0, gens1)):
-            if d0 != d1 and not (k == "gen" and spec["i"] == j):
+            if d0 != d1 and not (k == "gen" and spec["i"] == j) and j not in mixed_gens:
                 raise Violation("R_isolation", f"{entry} with stream kind {k} advanced unrelated pool generator {j}", {"step": idx, "entry": entry, "args": a, "stream": spec}, dict(sig, state="pool_generator"))
         # ---- reference call in a fresh world
-        self.bump("oracle_checks", {"int": "R1", "gen": "R2", "none": "R3", "crafted": "R1"}[k])
+        self.bump("oracle_checks", {"int": "R1", "gen": "R2", "none": "R3", "crafted": "R1", "mixed": "R_mixed_stream_list"}[k])
         try:
             if k == "int":
                 np.random.seed(PRISTINE_SEED)
@@ -754,6 +774,14 @@ class Run:
             elif k == "gen":
                 np.random.seed(PRISTINE_SEED)
                 ref = call_entry(fresh, entry, a, self.shadow_stream(entry, spec, a))
+            elif k == "mixed":
+                if mixed_none:
+                    np.random.set_state(np0)
+                else:
+                    np.random.seed(PRISTINE_SEED)
+                ref = call_entry(fresh, entry, a, self.shadow_stream(entry, spec, a))
+                if mixed_none and _np_state_digest() != np1_d:
+                    raise Violation("R3_global_stream", f"{entry} with a stream list containing None: live and reference calls consumed the global state differently", {"step": idx, "entry": entry, "args": a, "stream": spec}, sig)
             else:
                 np.random.set_state(np0)
                 ref = call_entry(fresh, entry, a, None)
@@ -772,9 +800,12 @@ class Run:
         if self.pending_fault and self.compared_calls >= 2:
             self.fault_between = True
         if not outputs_equal(out, ref):
-            names = {"int": "R1_seed_function", "crafted": "R1_seed_function", "gen": "R2_shared_generator", "none": "R3_global_stream"}
+            names = {"int": "R1_seed_function", "crafted": "R1_seed_function", "gen": "R2_shared_generator", "none": "R3_global_stream", "mixed": "R_mixed_stream_list"}
             raise Violation(names[k], f"{entry} (stream kind {k}): output differs from the same call in a fresh world",
                             {"step": idx, "entry": entry, "args": a, "stream": spec, "live": to_jsonable(out) if len(str(out)) < 2000 else "…", "reference": to_jsonable(ref) if len(str(ref)) < 2000 else "…"}, sig)
+        for j in sorted(mixed_gens):
+            if _gen_digest(self.gens[j]) != _gen_digest(self.shadows[j]):
+                raise Violation("R2_shared_generator", f"{entry}: generator {j} of the stream list ends in a state that differs from the reference model's", {"step": idx, "entry": entry, "args": a, "stream": spec}, sig)
         if k == "gen":
             if _gen_digest(self.gens[spec["i"]]) != _gen_digest(self.shadows[spec["i"]]):
                 raise Violation("R2_shared_generator", f"{entry}: shared generator state after the call differs from the reference model's", {"step": idx, "entry": entry, "args": a}, sig)
